@@ -57,6 +57,7 @@ def rules(chk, db):
     c16.rules(chk, db, prefix='B.')
     chk.rule('L', 'ConstexprBufferWriter::WriteElement stores little-endian byte lanes at index_ + offset', minimum=8)
     c17.lanes(chk, db, 'L')
+    c17.fd_ownership(chk, db, 'OWN')      # a moved Serializer/Deserializer over an fd must still own exactly that descriptor
     tablerules.rules(chk, db, {'TW', 'TE', 'TR', 'TL', 'TD', 'TS'})
 
 
